@@ -100,8 +100,12 @@ def check_history(res, rng, metric, kind, length, ops=None):
                 repl = sorted(set(int(v) for v in rng.integers(0, cur_n, nr)) | {int(2 * rng.integers(0, 6))})   # always one twin
                 repl = [repl[i] for i in rng.permutation(len(repl))]       # callers list the rows in any order; rows pair by position
                 upd, upd_l = api.gen_dataset(rng, metric, kind, len(repl), dim)
+            stray = None
+            if len(op) > 3 and op[3] == "stray" and not nr:
+                # row numbers WITHOUT replacement rows: documented as "will be ignored" (a warning) - an append-only update
+                stray = [int(v) for v in rng.integers(0, cur_n, 3)]
             try:
-                idx.update(xs_fresh=fresh, xs_updated=upd, updated_indices=repl if nr else None)
+                idx.update(xs_fresh=fresh, xs_updated=upd, updated_indices=repl if nr else stray)
             except Exception as e:  # noqa
                 err = err_kind(e)
             if err is None:
@@ -216,6 +220,8 @@ def run(res, tier, seed, search):
     # two updates in a row on a prepared index (no query in between); update as the very first operation
     check_history(res, rng, "dot", "dense32", 0, ops=[("update", 3, 2), ("query", 3), ("update", 4, 0), ("update", 0, 3), ("query", 7), ("pickle",), ("query", 3)])
     check_history(res, rng, "euclidean", "dense32", 0, ops=[("prepare",), ("update", 2, 3), ("update", 3, 0), ("query", 7), ("update", 0, 2), ("update", 1, 1), ("query", 3)])
+    # an update that appends and replaces nothing (on a prepared index), then a round trip and a real update; stray row numbers
+    check_history(res, rng, "euclidean", "dense32", 0, ops=[("query", 3), ("update", 0, 0), ("pickle",), ("query", 7), ("update", 2, 0, "stray"), ("query", 3), ("update", 0, 0), ("update", 1, 2), ("query", 7)])
     start = (seed * nm) % len(METRICS)
     for i in range(nh):
         metric, kind = METRICS[(start + i % nm) % len(METRICS)]
